@@ -270,7 +270,15 @@ def r5_effects(ctx):
             chain = [l for l in loops if bi in l[1] and l[0] != o[0] and q.contains(l[3], lambda x: x[0] == "closure")]
             if chain:
                 # the insert sits in a loop over an adapter chain built from closures (`(0..n).map(..).filter_map(..)`): which indices it visits
-                # and what the id / data of each element are is inside those closures — not read here
+                # and what the id / data of each element are is inside those closures — not read here.  One shape is read: a position taken AFTER a
+                # filter (`outputs.iter().filter(..).enumerate()`) is not the output's index, and a coin id built from it names the wrong output.
+                src = chain[0][3]
+                shifted = [x for x in mir.walk(src) if x[0] == "call" and x[1].endswith("Iterator::enumerate") and x[2] and
+                           q.contains(x[2][0], lambda y: y[0] == "call" and y[1].split("::")[-1] in ("filter", "filter_map", "skip", "skip_while", "take_while", "step_by", "rev"))]
+                if shifted and ".0 as u8" in sig(e[2][1]) and "Iterator::enumerate" in sig(e[2][1]):
+                    r.violation("outputs/id", "id = %s: the index is a position in the filtered sequence, not the output's index in the transaction — the coin id names another output"
+                                % sig(e[2][1])[:200], b.where(bi))
+                    continue
                 r.undecided("outputs/in-loops", "the outputs are inserted in a loop over %s: indices, id and data of each element are not decided" % sig(chain[0][3])[:160], b.where(bi))
                 continue
         r.check(o is not None and i is not None, "outputs/in-loops", "inside (all transactions) × (all output indices)", "the insert is not inside the loops over all transactions and all of their outputs", b.where(bi))
